@@ -298,6 +298,27 @@ def check_source_isolation(kind: str) -> list[Result]:
             c = dx.from_pandas(user, npartitions=3)
         elif kind == "frame-1part":
             c, user = dx.from_pandas(pdf, npartitions=1), pdf
+        elif kind in ("numpy-buffer", "numpy-buffer-series"):
+            # the user's frame wraps a numpy array without copying it: writes to the array bypass pandas' copy-on-write
+            buf = np.arange(12, dtype="float64").reshape(6, 2)
+            user = pd.DataFrame(buf, columns=["a", "b"], copy=False)
+            if kind.endswith("series"):
+                sbuf = np.arange(6, dtype="float64")
+                user = pd.Series(sbuf, name="a", copy=False)
+                buf = sbuf
+            c = dx.from_pandas(user, npartitions=2, sort=False)
+            want = c.compute()
+            before = chash(user)
+            got1 = c.compute()
+            if chash(user) != before:
+                return [Result(name, VIOLATION, f"{name}|source-modified", "computing the collection modified the user's pandas object")]
+            buf[...] = -1.0
+            got2 = c.compute()
+            got3 = (c + 1).compute() - 1
+            for g in (got1, got2, got3):
+                if not g.equals(want):
+                    return [Result(name, VIOLATION, f"{name}|aliased", "the collection's result changed after the user wrote to the numpy buffer their pandas object wraps (the source shares memory with it)")]
+            return [Result(name, HELD, "", "concrete by-product: results unchanged by later writes to the wrapped buffer", extra={"trivial": True})]
         else:
             raise ValueError(kind)
         want = c.compute()
